@@ -108,7 +108,7 @@ def correspondence(ctx):
 OPS = ["resolve", "optimize", "assign", "assign", "rnd_resolve", "rnd_optimize", "assign_original"]
 
 
-class _Timeout(Exception):
+class _Timeout(BaseException):
     pass
 
 
